@@ -1,5 +1,7 @@
 /- garnish-drv: runs the Lean model on the same case files as the Rust harness -/
 import Garnish.Driver.Proto
+import Garnish.Driver.LexDrv
+import Garnish.Driver.ParseDrv
 open Garnish Garnish.Proto
 
 def numCase (f : List String) : String :=
@@ -25,6 +27,8 @@ def runCase (f : List String) : String :=
   match f.head? with
   | some "NUM" => numCase f
   | some "CMP" => cmpCase f
+  | some "LEX" => Garnish.Driver.lexCase f
+  | some "PARSE" => Garnish.Driver.parseCase f
   | _ => "UNKNOWN-SUITE"
 
 partial def loop (h : IO.FS.Stream) (out : IO.FS.Stream) : IO Unit := do
